@@ -31,7 +31,7 @@ ASSUMPTIONS = [
     "(pinned by test_generation.py::test_svg_example14)",
 ]
 TOLERANCES = {"lines/Beziers": "(n + 1) * 1e-11 * S", "arc fidelity": "R * ratio * min(delta / h, sqrt(2 delta)) * 8 with delta = 1e-11 (12 digits) or 6e-6 (known finding)"}
-MANDATORY_LABELS = {"quick": ["rel:None", "rel:True", "rel:False", "smooth:None", "smooth:True", "smooth:False", "route:prog", "route:parse", "kind:A", "kind:C", "kind:Q", "smooth-eligible", "subpath", "no-own-move"]}
+MANDATORY_LABELS = {"quick": ["ctor:kw", "ctor:dict", "rel:None", "rel:True", "rel:False", "smooth:None", "smooth:True", "smooth:False", "route:prog", "route:parse", "kind:A", "kind:C", "kind:Q", "smooth-eligible", "subpath", "no-own-move"]}
 MANDATORY_LABELS["thorough"] = MANDATORY_LABELS["quick"]
 
 
@@ -39,7 +39,7 @@ def decode(d):
     case = {"relative": d.choice([None, False, True]), "smooth": d.choice([None, False, True]), "sub": d.below(4)}
     if d.chance(3, 8):
         text, _ = gen.path_text(d, min_cmds=1, max_cmds=8)
-        case.update(route="parse", d=text)
+        case.update(route="parse", d=text, ctor=d.choice(lib.CTOR_FORMS))
         return case
     move_led = not d.chance(1, 5)
     segs = gen.path_segments(d, max_subpaths=3, max_segs=3, move_led=move_led, arc_degenerate=False)
@@ -112,7 +112,8 @@ def check(case):
             raise core.HarnessError("generator produced non-conforming text %r" % case["d"])
         if ref.nonfinite:
             return o.excluded("non-finite number")
-        p = se.Path(case["d"])
+        p = lib.path_from_text(case["d"], case.get("ctor", "pos"))
+        o.label("ctor:%s" % case.get("ctor", "pos"))
         if "close-then-nonmove" in ref.info:
             o.label("no-own-move")
     if len(p) and lib.kind_of(p[0]) != "M":
